@@ -1,44 +1,20 @@
 // scratch probes against the real API (no harness model in the loop)
+use automerge::transaction::Transactable;
 use automerge::*;
 
-fn marks(d: &AutoCommit, t: &ObjId) -> Vec<String> {
-    d.marks(t).map(|v| v.iter().map(|m| format!("{}..{} {}={}", m.start, m.end, m.name(), m.value())).collect()).unwrap_or_default()
-}
-
 fn main() {
-    let dir = "/verif/out/dump/net";
-    let mut files: Vec<String> = std::fs::read_dir(dir).unwrap().map(|e| e.unwrap().file_name().to_string_lossy().to_string()).filter(|f| f.ends_with("P1.bin")).collect();
-    files.sort();
-    let actor = ActorId::from(hex::decode(std::fs::read_to_string(format!("{dir}/00000-restore-P1.actor")).unwrap().trim()).unwrap());
-    for enc in [TextEncoding::UnicodeCodePoint, TextEncoding::Utf8CodeUnit, TextEncoding::Utf16CodeUnit, TextEncoding::GraphemeCluster] {
-        let mut d: Option<AutoCommit> = None;
-        let mut bad = false;
-        for f in &files {
-            let bytes = std::fs::read(format!("{dir}/{f}")).unwrap();
-            if f.contains("restore") {
-                let mut x = AutoCommit::load_with_options(&bytes, LoadOptions::new().text_encoding(enc)).unwrap().with_actor(actor.clone());
-                // a first transaction of the new actor that ends up empty (deleting a key that does not exist)
-                use automerge::transaction::Transactable;
-                let m = x.get(ROOT, "m").unwrap().map(|v| v.1).unwrap();
-                let r = x.delete(&m, "no-such-key");
-                println!("  delete of a missing key: {:?}, commit -> {:?}", r.map_err(|e| e.to_string()), x.commit());
-                d = Some(x);
-                continue;
-            }
-            let doc = d.as_mut().unwrap();
-            let r = doc.load_incremental(&bytes);
-            let t = doc.get(ROOT, "t").unwrap().map(|x| x.1);
-            if let Some(t) = t {
-                let re = AutoCommit::load_with_options(&doc.save(), LoadOptions::new().text_encoding(enc)).unwrap();
-                let (a, b) = (marks(doc, &t), marks(&re, &t));
-                println!("{enc:?} {f}: load_incremental {:?}; marks in memory {:?} / after reload {:?} {}", r.map_err(|e| e.to_string()), a, b, if a != b { "<<< DIFFERENT" } else { "" });
-                if a != b {
-                    bad = true;
-                }
-            }
-        }
-        if bad {
-            break;
-        }
-    }
+    let mut a = AutoCommit::new().with_actor(ActorId::from(vec![1u8]));
+    a.put(ROOT, "a", 1).unwrap();
+    a.commit();
+    let mut b = a.fork().with_actor(ActorId::from(vec![2u8]));
+    a.put(ROOT, "x", 1).unwrap();
+    a.commit();
+    b.put(ROOT, "y", 1).unwrap();
+    b.commit();
+    a.merge(&mut b).unwrap();
+    let bytes = a.save_nocompress();
+    let l = amv::mutate::doc_layout(&bytes).unwrap();
+    println!("heads {} suffix_start {} chunk end {} len {}", l.heads_count, l.suffix_start, l.chunk.end, bytes.len());
+    println!("suffix bytes {:?}", &bytes[l.suffix_start..l.chunk.end]);
+    println!("drop_head -> {:?}", amv::mutate::drop_head(&bytes).map(|b| AutoCommit::load(&b).map(|mut d| d.get_heads().len()).map_err(|e| e.to_string())));
 }
